@@ -76,11 +76,15 @@ def dumpStr (n : Naming) : String :=
   let listed := sorted (n.nsIndex.map skeyStr)
   s!"services={",".intercalate svcs} clients={",".intercalate clients} listed={",".intercalate listed} nlisted={n.nsIndex.length}"
 
+/-- the hash of a service key, as far as the process range is concerned: services whose name ends in `-out` are the ones
+the op `range2` puts outside this node's range (the harness searches a real range with that effect) -/
+def hashFor (k : SKey) : Nat := if k.service.endsWith "-out" then 1 else 0
+
 def step (n : Naming) (ws : List String) : Naming × String :=
   let now : Int := (kv ws "now").toInt?.getD 0
   match ws with
   | "upd" :: rest =>
-    (n.updateInstance (parseSKey (kv rest "svc")) (instOf rest) (tagOf (kv rest "tag")) (kv rest "sync" == "1") now 0, "ok")
+    (n.updateInstance (parseSKey (kv rest "svc")) (instOf rest) (tagOf (kv rest "tag")) (kv rest "sync" == "1") now (hashFor (parseSKey (kv rest "svc"))), "ok")
   | "del" :: rest =>
     let i := instOf rest
     ((n.removeInstance (parseSKey (kv rest "svc")) i.short (some i.clientId) now).1, "ok")
@@ -93,7 +97,7 @@ def step (n : Naming) (ws : List String) : Naming × String :=
   -- what another node's sync sends: a batch of instances (`UpdateBatch`: no tag, from sync), a batch of removals
   -- (`DeleteBatch`), the clients of a node that went away (`RemoveClientsFromCluster`)
   | "updbatch" :: rest =>
-    ((splitGroups rest).foldl (fun acc g => acc.updateInstance (parseSKey (kv g "svc")) (instOf g) none true now 0) n, "ok")
+    ((splitGroups rest).foldl (fun acc g => acc.updateInstance (parseSKey (kv g "svc")) (instOf g) none true now (hashFor (parseSKey (kv g "svc")))) n, "ok")
   -- a peer's digest of its gRPC connections (`SyncDistroClientInstances` -> `DiffGrpcDistroData`): groups `cid=.. svc=.. ip=.. port=..`
   | "digest" :: rest =>
     let items := (splitGroups rest).map fun g => ((kv g "cid"), (⟨parseSKey (kv g "svc"), (instOf g).short⟩ : IKey))
@@ -118,6 +122,8 @@ def step (n : Naming) (ws : List String) : Naming × String :=
     let (n2, ok) := n.removeService (parseSKey (kv rest "svc"))
     (n2, if ok then "ok" else "refused")
   | "range" :: _ => (n.refreshRange (0, 1) (fun _ => 0), "ok")
+  -- the cluster grew: this node is responsible for the services named `in=`, not for those named `out=` (`*-out`)
+  | "range2" :: _ => (n.refreshRange (0, 2) hashFor, "ok")
   | "setprotect" :: rest =>
     let k := parseSKey (kv rest "svc")
     let p := (kv rest "p").toNat?.getD 0
@@ -366,6 +372,7 @@ def specOp (s0 : SpecSt) (op ans : List String) : SpecSt × String :=
     let key := s!"{kv rest "svc"}@{kv rest "ip"}:{kv rest "port"}"
     let eph := match s.tracked.find? (·.key == key) with | some t => t.http || t.cand | none => false
     (if eph then s else { s with tracked := s.tracked.filter (·.key != key) }, "-")
+  | "range2" :: _ => ({ s with tracked := s.tracked.map fun t => if t.cand && !((t.key.splitOn "@").headD "").endsWith "-out" then { t with http := true } else t }, "-")
   | "range" :: _ =>
     -- this node now owns every key: replicated HTTP instances fall under its heartbeat supervision
     ({ s with tracked := s.tracked.map fun t => if t.cand then { t with http := true } else t }, "-")
